@@ -10,6 +10,7 @@ import ClusterVerif.Lemmas.C08Add
 import ClusterVerif.Lemmas.C08AddDec
 import ClusterVerif.Lemmas.C08Util
 import ClusterVerif.Gen.C08Add
+import ClusterVerif.Lemmas.C08Mp
 
 /-!
 # C08 — records survive every encoding boundary; decoders never crash
@@ -588,5 +589,77 @@ theorem strings_peers_reencode (ss : List SItem) :
 example : stringsToPeers [.cid 4, .junk, .empty, .b58 1] = [4, 1] := by decide
 
 end PeerStrings
+
+/-! ## Round 8c — the msgpack envelope of dsstate (`serialEntry` stream; `Model/C08Mp.lean`, tied byte for byte by `mpenc`/`mpdec`) -/
+section MpEnvelope
+open CV.C08.Mp
+
+/-- the 2- and 4-byte big-endian lengths `encRaw` writes read back, for every length in range -/
+theorem mp_length_bytes_roundtrip (n : Nat) : (n < 65536 → beNat (be16 n) = n) ∧ (n < 4294967296 → beNat (be32 n) = n) :=
+  ⟨beNat_be16, beNat_be32⟩
+
+/-- ∀ byte strings below 32 bytes and ∀ continuations: the token reader returns exactly what `encRaw` wrote -/
+theorem mp_fixraw_roundtrip (bs rest : Mp.Bytes) (h : bs.length < 32) : readTok (encRaw bs ++ rest) = some (Tok.raw bs, rest) :=
+  readTok_encRaw_short bs rest h
+
+example : readTok (encRaw [1, 2, 3] ++ [0x82]) = some (Tok.raw [1, 2, 3], [0x82]) := by decide
+
+/-- ∀ stores, ∀ streams whose first entry decodes without a key (nil entry, `k` nil / empty / missing): `Unmarshal` fails
+    and the store still holds exactly what it held (the first entry is decoded before anything is deleted) -/
+theorem mp_keyless_first_keeps_store (old : Store) (bs rest : Mp.Bytes) (e : Entry)
+    (h : decodeEntry bs = .ok e rest) (hk : e.key = []) : unmarshal old bs = .err old := unmarshal_keyless_first old bs rest e h hk
+
+example : decodeEntry [0x81, 0xa1, 0x76, 0xa1, 7] = .ok { key := [], value := some [7] } [] := by decide
+example : decodeEntry [0xc0, 1, 2] = .ok { key := [], value := none } [1, 2] := by decide
+
+/-- the empty stream is a valid dump: it empties the store -/
+theorem mp_empty_stream_empties (old : Store) : unmarshal old [] = .ok [] := rfl
+
+/-- ∀ stores, ∀ streams that END INSIDE their first entry: `Unmarshal` succeeds with an EMPTY store (the decoder's error for
+    a cut value is io.EOF, which `Unmarshal` takes for the clean end) -/
+theorem mp_cut_first_entry_empties (old : Store) (bs : Mp.Bytes) (h : decodeEntry bs = .err) : unmarshal old bs = .ok [] :=
+  unmarshal_cut_first old bs h
+
+example : decodeEntry ((encEntry { key := [65], value := some [1, 2, 3] }).take 8) = .err := by decide
+
+/-- what one would want: a stream cut inside an entry is refused … -/
+def mp_cut_stream_refused : Prop :=
+  ∀ (old : Store) (es : List Entry) (n : Nat), n < (marshal es).length → decodeEntry ((marshal es).take n) ≠ .eof →
+    (∀ m, m ≤ es.length → (marshal es).take n ≠ marshal (es.take m)) → ∃ s, unmarshal old ((marshal es).take n) = .err s
+
+/-- the witness: two entries -/
+def cutWitness : List Entry := [{ key := [65], value := some [1] }, { key := [66], value := some [2, 3] }]
+
+/-- … is false for the code as it is: two entries, cut one byte before the end, restore to the first entry alone, no error -/
+theorem mp_cut_stream_refused_fails : ¬ mp_cut_stream_refused := by
+  intro h
+  have hne : ∀ m, m ≤ 2 → (marshal cutWitness).take 15 ≠ marshal (cutWitness.take m) := by
+    intro m hm
+    have : m = 0 ∨ m = 1 ∨ m = 2 := by omega
+    rcases this with rfl | rfl | rfl <;> decide
+  obtain ⟨s, hs⟩ := h [([90], [9])] cutWitness 15 (by decide) (by decide) (fun m hm => hne m hm)
+  have e : unmarshal [([90], [9])] ((marshal cutWitness).take 15) = .ok [([65], [1])] := by decide
+  rw [e] at hs
+  cases hs
+
+example : unmarshal [([90], [9])] ((marshal [{ key := [65], value := some [1] }, { key := [66], value := some [2, 3] }]).take 15)
+    = .ok [([65], [1])] := by decide
+
+/-- concrete round trips through the model (fixraw, raw16 and nil values; an unknown field with a nested value is skipped;
+    `v` before `k`; a repeated `k`: the later one wins) -/
+theorem mp_roundtrip_examples :
+    unmarshal [([90], [9])] (marshal [{ key := [65], value := some [1] }, { key := [66], value := none }])
+      = .ok (putAll [] [{ key := [65], value := some [1] }, { key := [66], value := none }]) ∧
+    decodeEntry [0x83, 0xa1, 0x76, 0xa1, 7, 0xa1, 0x78, 0x92, 0x81, 1, 0xc0, 0xcd, 1, 2, 0xa1, 0x6b, 0xd9, 1, 65]
+      = .ok { key := [65], value := some [7] } [] ∧
+    decodeEntry [0x82, 0xa1, 0x6b, 0xa1, 65, 0xa1, 0x6b, 0xa1, 66] = .ok { key := [66], value := none } [] := by decide
+
+/-- the general statement, NOT proved (kept as a named Prop): every list of entries with non-empty keys and lengths below 2^32
+    restores to exactly `putAll [] es`. Evaluated by the driver on every `mpenc` case (`mpenc-model-roundtrip`) and on the real code. -/
+def mp_snapshot_roundtrip_full : Prop :=
+  ∀ (old : Store) (es : List Entry), (∀ e ∈ es, e.key ≠ [] ∧ e.key.length < 4294967296 ∧ (valBytes e.value).length < 4294967296) →
+    unmarshal old (marshal es) = .ok (putAll [] es)
+
+end MpEnvelope
 
 end CV.C08.Props
